@@ -23,19 +23,16 @@ KINDS = {'Struct': 'buffer', 'Array': 'buffer', 'Scalar': 'buffer', 'Vector': 'b
 
 
 def ident_fmt(term):
-    """Ident::new(format!("{name}{index}", name=<lit>, index=<term>)) -> (prefix literal, index term) ; None otherwise"""
-    if term[0] == 'call' and term[1] == 'Ident::new' and term[2] and term[2][0][0] == 'fmt':
+    """Ident::new(format!("<PREFIX>{}", index)) / format!("{}{}", "<PREFIX>", index) -> (prefix literal, index term) ; None otherwise"""
+    if term is not None and term[0] == 'call' and term[1] == 'Ident::new' and term[2] and term[2][0][0] == 'fmt':
         f = term[2][0]
-        named = dict(f[3])
-        tmpl = f[1]
-        if tmpl == '{name}{index}' and 'name' in named and 'index' in named and named['name'][0] == 'lit':
-            return named['name'][2], named['index']
+        tmpl, args = f[1], list(f[2])
         import re
-        m = re.fullmatch(r'([A-Za-z_]+)\{([a-z_]*)\}', tmpl)
-        if m:
-            idx = named.get(m.group(2)) if m.group(2) else (f[2][0] if f[2] else None)
-            if idx is not None:
-                return m.group(1), idx
+        if tmpl == '{}{}' and len(args) == 2 and args[0][0] == 'lit':
+            return args[0][2], args[1]
+        m = re.fullmatch(r'([A-Za-z_][A-Za-z0-9_]*)\{\}', tmpl)
+        if m and len(args) == 1:
+            return m.group(1), args[0]
     return None
 
 
@@ -253,9 +250,12 @@ def run(rep):
             okk = len(sb) == 1 and E.tmpl_text(sb[0]).count('#(') == 2 and E.tmpl_text(sb[0]).rstrip().endswith(')* }')
             rep.check(okk, 'C04.R5.set-once', 'set_bind_groups-body', where, 'set_bind_groups does not consist of one parameter list and one list of set calls', ok_detail='one parameter per group, one set call per group')
         # ---- R6 fixed impls -----------------------------------------------------------------------------------------------------------
+        import re as _re
         for ty in ('ComputePass', 'RenderPass', 'RenderBundleEncoder'):
-            frag = f"impl SetBindGroup for wgpu :: {ty} <'_ > {{ fn set_bind_group ( & mut self , index : u32 , bind_group : & wgpu :: BindGroup , offsets : & [ wgpu :: DynamicOffset ] , ) {{ self . set_bind_group ( index , bind_group , offsets ) ; }} }}"
-            rep.check(frag in mtxt, 'C04.R6.set-bind-group-impls', f'impl:{ty}', where, f'SetBindGroup is not implemented for wgpu::{ty} by positional forwarding of (index, bind_group, offsets)', ok_detail='forwards (index, bind_group, offsets)')
+            m_ = _re.search(r"impl SetBindGroup for wgpu :: " + ty + r" <'_ > \{ fn set_bind_group \( & mut self , (\w+) : u32 , (\w+) : & wgpu :: BindGroup , (\w+) : & \[ wgpu :: DynamicOffset \] ,? \) "
+                            r"\{ self \. set_bind_group \( (\w+) , (\w+) , (\w+) \) ;? \} \}", mtxt)
+            okf = m_ is not None and m_.group(1, 2, 3) == m_.group(4, 5, 6)
+            rep.check(okf, 'C04.R6.set-bind-group-impls', f'impl:{ty}', where, f'SetBindGroup is not implemented for wgpu::{ty} by positional forwarding of (index, bind_group, offsets)', ok_detail='forwards (index, bind_group, offsets)')
         rep.check(mtxt.count('impl SetBindGroup for') == 3, 'C04.R6.set-bind-group-impls', 'impl-count', where, f'{mtxt.count("impl SetBindGroup for")} implementors', ok_detail='exactly three implementors')
     # ---- R7 pipeline layout -------------------------------------------------------------------------------------------------------------
     tops = [tq for tq in ogp.summaries if any(c[0] == tq and c[1] == q for c in ogp.it.inline_calls)]
